@@ -102,6 +102,17 @@ fn matrix(a: &Args, pat: &str) -> Vec<Vec<String>> {
             }
         }
     }
+    // zero limits with slice / custom payloads (the builders that did not adjust 0 to 1 before fix 0c61d51):
+    // created directly and through open_or_create on a missing service
+    if pat == "ps" {
+        for t in ["su8", "xu64_8_8", "xu8_1_1_D"] {
+            for k in ["mp", "ms", "mn", "b", "r"] {
+                let ck = vec![format!("{k}=0"), format!("t={t}")];
+                round(&ck, &vec![format!("t={t}")]);
+                round(&ck, &ck);
+            }
+        }
+    }
     // pairs of dimensions (which failing check is reported first), reduced domains
     let red = |xs: &'static [&'static str], k: usize| -> Vec<&'static str> {
         if xs.len() <= k { xs.to_vec() } else { let mut v = vec![xs[0]]; v.extend(xs[xs.len() - (k - 1)..].iter()); v }
@@ -123,6 +134,22 @@ fn matrix(a: &Args, pat: &str) -> Vec<Vec<String>> {
                         }
                     }
                 }
+            }
+        }
+    }
+    if pat == "ps" {
+        // open_or_create as the creator
+        for t in ["su8", "xu64_8_8", "xu8_1_1_D", "u64"] {
+            for k in ["mp", "ms", "mn", "b", "r"] {
+                rounds.push(vec![
+                    call_line("ooc", 0, 0, 0, pat, &[format!("{k}=0"), format!("t={t}")]),
+                    "port 0 0 pub".to_string(),
+                    "port 0 1 sub".to_string(),
+                    "list".to_string(),
+                    "dport 0".to_string(),
+                    "dport 1".to_string(),
+                    "drop 0".to_string(),
+                ]);
             }
         }
     }
@@ -195,17 +222,22 @@ fn random_cases(a: &Args) -> Vec<Vec<String>> {
         for _ in 0..a.len {
             let pat = if only.is_some() || rng.chance(85) { main_pat } else { *rng.pick(&pats) };
             let s = rng.below(names);
-            let node = if rng.chance(3) { 3 } else { rng.below(nn as u64) };
+            let node = if rng.chance(1) { 3 } else { rng.below(nn as u64) };
             let x = rng.below(100);
+            // mostly a label that is believed to be free
+            let free_label = |rng: &mut Rng, handles: &Vec<(u64, &str)>| -> u64 {
+                let free: Vec<u64> = (0..8).filter(|l| !handles.iter().any(|(h, _)| h == l)).collect();
+                if free.is_empty() || rng.chance(8) { rng.below(8) } else { *rng.pick(&free) }
+            };
             let line = if x < 22 {
-                let h = rng.below(6);
+                let h = free_label(&mut rng, &handles);
                 let kv = random_kv(&mut rng, pat, true, 30);
                 believed.retain(|(k, _)| *k != (s, pat));
                 believed.push(((s, pat), kv.clone()));
                 handles.push((h, pat));
                 call_line("create", node as usize, s as usize, h as usize, pat, &kv)
             } else if x < 50 {
-                let h = rng.below(6);
+                let h = free_label(&mut rng, &handles);
                 let op = if rng.chance(25) && pat != "bb" { "ooc" } else { "open" };
                 // mostly: requirements the creator's settings satisfy (its own tokens, some dropped)
                 let kv = match believed.iter().find(|(k, _)| *k == (s, pat)) {
@@ -237,7 +269,7 @@ fn random_cases(a: &Args) -> Vec<Vec<String>> {
             } else if x < 98 {
                 format!("settings {}", rng.below(6))
             } else if x < 99 {
-                format!("dnode {}", rng.below(nn as u64))
+                if rng.chance(25) { format!("dnode {}", rng.below(nn as u64)) } else { format!("exists {s} {pat}") }
             } else {
                 format!("node {}", rng.below(4))
             };
@@ -276,8 +308,16 @@ fn exhaustive(a: &Args) -> Vec<Vec<String>> {
     .iter()
     .map(|s| s.to_string())
     .collect();
+    // `part=K/N`: only every N-th history, starting with the K-th (to spread the enumeration over processes)
+    let (pk, pn) = a.rest.iter().find_map(|x| x.strip_prefix("part=")).and_then(|x| x.split_once('/'))
+        .map(|(k, n)| (k.parse::<usize>().unwrap(), n.parse::<usize>().unwrap())).unwrap_or((0, 1));
+    let mut idx = 0usize;
     let mut cases = vec![];
     enumerate_seqs(&alphabet, a.exhaustive as usize, &mut |ix| {
+        idx += 1;
+        if (idx - 1) % pn != pk {
+            return;
+        }
         let mut c = vec!["new ipc".to_string(), "node 0".to_string(), "node 1".to_string()];
         for i in ix {
             c.push(alphabet[*i].clone());
